@@ -47,6 +47,7 @@ def check(ctx):
     _g = _gc.build(ctx, "R15.5")
     ctx.run_shared(_c15.r15_5, _g)
     ctx.run_shared(_c15.r15_6, _g)
+    ctx.run_shared(_c15.r15_10, _g)
     # mechanisms this property rests on (see shared.py): a change there is reported here as well
     from . import shared as _sh
 
@@ -448,6 +449,18 @@ def r18_4(ctx, m):
         cmp1 = any(isinstance(x, ast.Compare) and isinstance(x.left, ast.Call) and norm(x.left.func) == "len" and const_value(x.comparators[0], None) == 1 and isinstance(x.left.args[0], (ast.Call, ast.SetComp)) for x in ast.walk(te))
         if not outer and not cmp1:
             raise AnalysisError("R18.4", dec.where(c), f"the contig-name condition `{t[:100]}` is not of the recognised len(set(...)) != 1 form")
+        # ... of *all* scaffold nodes of the chain: the list it ranges over is the traversal filtered by node type only
+        for comp_ in [x for x in ast.walk(cond_expr(c)) if isinstance(x, (ast.GeneratorExp, ast.SetComp, ast.ListComp))]:
+            src_ = comp_.generators[0].iter
+            if isinstance(src_, ast.Name):
+                d_ = [st_.value for st_ in walk_own(dec.node) if isinstance(st_, ast.Assign) and norm(st_.targets[0]) == src_.id]
+                if len(d_) == 1 and isinstance(d_[0], (ast.ListComp, ast.GeneratorExp)) and d_[0].generators[0].ifs:
+                    conj_ = []
+                    for f_ in d_[0].generators[0].ifs:
+                        conj_ += f_.values if isinstance(f_, ast.BoolOp) and isinstance(f_.op, ast.And) else [f_]
+                    extra_ = [norm(q) for q in conj_ if "tags['SN']" in norm(q) or (names_in(q) & set(dec.params))]
+                    if extra_:
+                        ctx.violated("R18.4", dec.where(c), f"the scaffold nodes the contig-name condition looks at are pre-filtered by `{extra_[0][:70]}`: nodes of another contig are taken out before they are compared, so a component joined through a haplotype passes as one contig", key_of(dec, f"sn-prefiltered:{extra_[0][:40]}"))
         ok = not outer and cmp1
         ctx.check(ok, "R18.4", dec.where(c), "the contig-name condition compares the SN tag values of the scaffold nodes (the whole tag or its value element), not the type letter, which is the same for every node", key_of(dec, f"sn-condition:{t[:120]}"), condition=t[:200])
     deg = [c for c in conds if "neighbors()" in ctext[id(c)]]
@@ -484,6 +497,50 @@ def r18_4(ctx, m):
             verdicts.append(True)
         elif weak or z_weak or p_weak:
             verdicts.append(False)
+    if not verdicts and asc:
+        # a spelling outside the recognised ones: the loop (or quantifier) is evaluated on every order type of up to four
+        # scaffold offsets; it must give up exactly when some consecutive pair does not strictly ascend
+        from . import sort_common as _sc
+        import itertools as _it
+
+        c = asc[0]
+        lp = None
+        for l_ in walk_own(dec.node):
+            if isinstance(l_, ast.For) and any(x is c for x in l_.body):
+                lp = l_
+        names_ = {n_.id for n_ in ast.walk(c.test) if isinstance(n_, ast.Name)} | ({n_.id for n_ in ast.walk(lp.iter) if isinstance(n_, ast.Name)} if lp is not None else set())
+        lists_ = [n_ for n_ in names_ if any(isinstance(st_, ast.Assign) and norm(st_.targets[0]) == n_ and "tags['SO']" in " ".join(closure(st_.value)) for st_ in walk_own(dec.node))]
+        if len(lists_) == 1:
+            lv = lists_[0]
+            bad_ = None
+            try:
+                for n_ in (2, 3, 4):
+                    for combo in _it.product(range(n_), repeat=n_):
+                        L_ = list(combo)
+                        want = any(not L_[j] < L_[j + 1] for j in range(n_ - 1))
+                        if lp is not None:
+                            got = False
+                            for item in _sc.eval_list_test(lp.iter, lv, L_, {}):
+                                env_ = {}
+                                if isinstance(lp.target, ast.Name):
+                                    env_[lp.target.id] = item
+                                elif isinstance(lp.target, ast.Tuple):
+                                    env_.update({t_.id: v_ for t_, v_ in zip(lp.target.elts, item)})
+                                if _sc.eval_list_test(c.test, lv, L_, {}, env0=env_):
+                                    got = True
+                                    break
+                        else:
+                            got = bool(_sc.eval_list_test(c.test, lv, L_, {}))
+                        if got != want and bad_ is None:
+                            bad_ = (L_, got, want)
+            except _sc.ListUnsupported:
+                bad_ = "unsupported"
+            if bad_ != "unsupported":
+                if bad_ is None:
+                    verdicts.append(True)
+                else:
+                    ctx.violated("R18.4", dec.where(c), f"the ascending-offset condition gives {'skip' if bad_[1] else 'no skip'} for scaffold offsets {bad_[0]} (in chain order), where {'a' if bad_[2] else 'no'} consecutive pair fails to ascend: a component whose offsets are out of order there is ordered and written instead of skipped", key_of(dec, f"ascending-evaluated:{bad_[0]}"))
+                    return
     if not verdicts:
         if asc:
             # an orientation test (first vs last) alone is not the ascending check; a condition we cannot read is undecided
